@@ -117,10 +117,9 @@ def fieldUnN (name : String) (f : Fld C) : Res :=
   match name with
   | "abs" =>
     let vals := (allIdx f.sizes).map f.val
-    let dt : DT → DT := fun d => if d == DT.complex then DT.float else d
     if vals.all (fun z => (absExact? z).isSome) then
-      .fld (unop (fun z => CRat.ofRat ((absExact? z).getD 0)) dt f) false
-    else .fld (unop CRat.nsq dt f) true
+      .fld (fieldAbs (fun z => CRat.ofRat ((absExact? z).getD 0)) f) false
+    else .fld (fieldAbs CRat.nsq f) true
   | _ =>
     match unOfName name with
     | none => .err "bad-op"
